@@ -15,7 +15,7 @@ import (
 func init() {
 	register("C05",
 		"that the change-overs happen at the right instants (the term instants themselves are numeric), the 60-cycle continuity of the day pillar (numeric in the Julian Day), and the parity coupling of stem and branch (AX-PARITY).",
-		r05_1, r05_2, r05_3, r05_4, r05_5, r05_6, r04_2, r11_2)
+		r05_1, r05_2, r05_3, r05_4, r05_5, r05_6, r04_2, r11_2, r05_7)
 }
 
 var pillarIndexField = regexp.MustCompile(`(?i)(gan|zhi)index`)
@@ -94,96 +94,105 @@ func r05_3(c *Ctx, r *Report) {
 	if fn == nil {
 		return
 	}
-	paths, ok := enumPaths(fn.Blocks[0], nil, 4096)
-	if !ok {
-		r.bad(rule, "calendar.computeDay is loop-free", c.fnPos(fn), "the function has a loop or too many paths (undecided = fail)")
-		return
-	}
-	stores := map[string]*ssa.Store{}
-	for _, b := range fn.Blocks {
-		for _, ins := range b.Instrs {
-			if st, ok := ins.(*ssa.Store); ok {
-				if fa, ok := st.Addr.(*ssa.FieldAddr); ok {
-					stores[fieldKeyOf(fa)] = st
+	construct := "calendar.computeDay: day stem/branch variants over hour x minute x pillar"
+	if len(fn.Params) != 1 {
+		r.bad(rule, construct, c.fnPos(fn), "computeDay no longer takes the date under construction as its only parameter (undecided = fail)")
+	} else {
+		recv := ssa.Value(fn.Params[0])
+		// the plain indices are stored from a numeric day offset: the first value stored into each is the pillar
+		plainVal := map[string]ssa.Value{}
+		for _, b := range fn.Blocks {
+			for _, ins := range b.Instrs {
+				if st, ok := ins.(*ssa.Store); ok {
+					if fa, ok := st.Addr.(*ssa.FieldAddr); ok && fa.X == recv {
+						k := fieldKeyOf(fa)
+						if (k == "Lunar.dayGanIndex" || k == "Lunar.dayZhiIndex") && plainVal[k] == nil {
+							plainVal[k] = st.Val
+						}
+					}
 				}
 			}
 		}
-	}
-	type variant struct {
-		name            string
-		cycle           int64
-		plain, ex, ex2  *ssa.Store
-	}
-	vs := []variant{{name: "Gan", cycle: 10}, {name: "Zhi", cycle: 12}}
-	missing := false
-	for i := range vs {
-		vs[i].plain, vs[i].ex, vs[i].ex2 = stores["Lunar.day"+vs[i].name+"Index"], stores["Lunar.day"+vs[i].name+"IndexExact"], stores["Lunar.day"+vs[i].name+"IndexExact2"]
-		if vs[i].plain == nil || vs[i].ex == nil || vs[i].ex2 == nil {
-			missing = true
+		idx := map[string]int{}
+		missing := plainVal["Lunar.dayGanIndex"] == nil || plainVal["Lunar.dayZhiIndex"] == nil
+		for _, f := range []string{"dayGanIndex", "dayZhiIndex", "dayGanIndexExact", "dayZhiIndexExact", "dayGanIndexExact2", "dayZhiIndexExact2"} {
+			idx[f] = fieldIndexOf(recv, f)
+			if idx[f] < 0 {
+				missing = true
+			}
 		}
-	}
-	construct := "calendar.computeDay: day stem/branch variants over hour x minute x pillar"
-	if missing {
-		r.bad(rule, construct, c.fnPos(fn), "a store of one of the six day-pillar variants is missing (undecided = fail)")
-	} else {
-		var problems []string
-		n := 0
-		for h := int64(0); h < 24 && len(problems) < 3; h++ {
-			for m := int64(0); m < 60 && len(problems) < 3; m++ {
-				for pillar := int64(0); pillar < 60 && len(problems) < 3; pillar++ {
-					base := map[string]int64{"Gan": pillar % 10, "Zhi": pillar % 12}
-					leaf := func(v ssa.Value) (interface{}, bool) {
-						for _, x := range vs {
-							if v == x.plain.Val {
-								return base[x.name], true
+		if missing {
+			r.bad(rule, construct, c.fnPos(fn), "a store of one of the six day-pillar variants is missing (undecided = fail)")
+		} else {
+			var problems []string
+			n := 0
+			for h := int64(0); h < 24 && len(problems) < 3; h++ {
+				for m := int64(0); m < 60 && len(problems) < 3; m++ {
+					for pillar := int64(0); pillar < 60 && len(problems) < 3; pillar++ {
+						if h > 0 && h < 22 && pillar%59 != 0 {
+							continue // the wrap of the cycle matters around 23:00 only
+						}
+						base := map[string]int64{"Gan": pillar % 10, "Zhi": pillar % 12}
+						leaf := func(fr *evalFrame, v ssa.Value) (interface{}, bool) {
+							if fr.parent == nil {
+								if v == plainVal["Lunar.dayGanIndex"] {
+									return base["Gan"], true
+								}
+								if v == plainVal["Lunar.dayZhiIndex"] {
+									return base["Zhi"], true
+								}
 							}
-						}
-						if recv, f, ok := getterField(c, v); ok && recv == ssa.Value(fn.Params[0]) {
-							switch f {
-							case "Lunar.hour":
-								return h, true
-							case "Lunar.minute":
-								return m, true
-							case "Lunar.dayGanIndex":
-								return base["Gan"], true
-							case "Lunar.dayZhiIndex":
-								return base["Zhi"], true
+							if rc, f, ok := getterField(c, v); ok {
+								if ofr, o := fr.origin(rc); ofr.parent == nil && o == recv {
+									switch f {
+									case "Lunar.hour":
+										return h, true
+									case "Lunar.minute":
+										return m, true
+									case "Lunar.dayGanIndex":
+										return base["Gan"], true
+									case "Lunar.dayZhiIndex":
+										return base["Zhi"], true
+									}
+								}
 							}
+							return nil, false
 						}
-						return nil, false
-					}
-					fp, msg := feasiblePaths(paths, leaf)
-					if msg != "" {
-						problems = append(problems, msg)
-						break
-					}
-					if len(fp) != 1 {
-						problems = append(problems, fmt.Sprintf("%02d:%02d selects %d paths", h, m, len(fp)))
-						break
-					}
-					n++
-					for _, x := range vs {
-						v1, ok1 := evalSSA(fp[0], x.ex.Val, leaf, 0)
-						v2, ok2 := evalSSA(fp[0], x.ex2.Val, leaf, 0)
-						want := base[x.name]
-						if h == 23 {
-							want = (want + 1) % x.cycle
-						}
-						if !ok1 || !ok2 {
-							problems = append(problems, "stored value not evaluable")
+						ev := &evaluator{leaf: leaf, inline: inlineLibrary}
+						fr := &evalFrame{fn: fn, phiFrom: map[*ssa.BasicBlock]*ssa.BasicBlock{}}
+						_, outcome := ev.runFrame(fr, nil, nil)
+						if outcome != "return" {
+							problems = append(problems, fmt.Sprintf("at %02d:%02d the function could not be followed: %s %s", h, m, outcome, ev.fail))
 							break
 						}
-						if v1 != interface{}(want) {
-							problems = append(problems, fmt.Sprintf("at %02d:%02d with plain %s index %d the early-rat index is %v, expected %d", h, m, x.name, base[x.name], v1, want))
-						}
-						if v2 != interface{}(base[x.name]) {
-							problems = append(problems, fmt.Sprintf("at %02d:%02d with plain %s index %d the late-rat index is %v, expected %d", h, m, x.name, base[x.name], v2, base[x.name]))
+						n++
+						for _, name := range []string{"Gan", "Zhi"} {
+							cycle := int64(10)
+							if name == "Zhi" {
+								cycle = 12
+							}
+							v1, ok1 := fr.mem[memKey{recv, idx["day"+name+"IndexExact"]}]
+							v2, ok2 := fr.mem[memKey{recv, idx["day"+name+"IndexExact2"]}]
+							want := base[name]
+							if h == 23 {
+								want = (want + 1) % cycle
+							}
+							if !ok1 || !ok2 {
+								problems = append(problems, "a day-pillar variant is not stored on this path")
+								break
+							}
+							if v1 != interface{}(want) {
+								problems = append(problems, fmt.Sprintf("at %02d:%02d with plain %s index %d the early-rat index is %v, expected %d", h, m, name, base[name], v1, want))
+							}
+							if v2 != interface{}(base[name]) {
+								problems = append(problems, fmt.Sprintf("at %02d:%02d with plain %s index %d the late-rat index is %v, expected %d", h, m, name, base[name], v2, base[name]))
+							}
 						}
 					}
 				}
 			}
+			r.check(len(problems) == 0 && n > 0, rule, construct, c.fnPos(fn), fmt.Sprintf("%d cases (24 hours x 60 minutes x pillars) followed; %s", n, strings.Join(headList(problems, 3), "; ")))
 		}
-		r.check(len(problems) == 0 && n == 24*60*60, rule, construct, c.pos(vs[0].ex.Pos()), fmt.Sprintf("%d cases (24 hours x 60 minutes x 60 pillars) evaluated on %d paths; %s", n, len(paths), strings.Join(headList(problems, 3), "; ")))
 	}
 	if tf := c.Fn(r, rule, "calendar.computeTime"); tf != nil {
 		reads := c.eff.Of(tf).paramReads(0)
